@@ -63,6 +63,13 @@ def jobs_C16(tier, scale):
             hist_job("C16", _classes(["DM", "UM"]), mixMW, tier, scale, 4000, 100000, "forced duplicates, multigraphs", force=100, pairvalues=1, final="dedup")]
 
 
+def jobs_C06(tier, scale):
+    mix = dict(add=40, add1=8, recip=4, rm=12, rmk=6, setl=10, setm=10, setw=10, rmloops=5, rmvtx=7, clear=4, resize=6)
+    c = dict(classes=_classes(["DS", "US", "DM", "UM", "DW", "UW", "DL", "UL"]), mix=_mix(mix))
+    return [dict(engine="pbt", executor="eq", config="san", gen="eq", cfg=c, cases=_n(tier, 16000, 400000, scale), shards=8 if tier == "quick" else 16,
+                 max_size=40 if tier == "quick" else 70, label="pairs of histories: rebuilt / one difference / independent / copies")]
+
+
 RULE_HIST = ("rapidcheck-generated call histories (0-%d ops, sizes 0-12) executed against the real class and an independent std::map model; "
              "all public observers compared after every step. ")
 
@@ -83,6 +90,12 @@ PROPS = {
                 rule=RULE_HIST % 80 + "Non-trivial: >=4 op kinds and (setEdgeWeight on a present undirected pair named in descending order, or the total read after an effective bulk removal). "
                 "Exact mode: weights k/8, |k|<=2^16, total must be equal; rounded mode: tolerance (m+1)*2^-50*(1+sum|w|).",
                 assumptions=["finite weights only"]),
+    "C06": dict(jobs=jobs_C06, min_nontrivial=dict(quick=500, thorough=5000),
+                rule="rapidcheck-generated pairs of histories on each of the eight classes (labels int/string/struct): (a) the same value rebuilt in a generated order/orientation "
+                "with detours through removed ghost edges and corrected labels, (b) the same plus one further mutation, (c) independent small histories, (d) copies (construction / assignment) "
+                "mutated afterwards. Oracle: ==, != in both directions and reflexivity against value equality of the two models; a copy shows the same observations and never moves when "
+                "the other side is mutated. Non-trivial: equality decided after a removal in either history, a rebuilt history containing removals, or models differing in exactly one place.",
+                assumptions=["duplicate-free histories (force off)", "weights exactly representable"]),
     "C16": dict(jobs=jobs_C16, min_nontrivial=dict(quick=300, thorough=3000),
                 rule=RULE_HIST % 80 + "Non-trivial: a forced duplicate exists and is later removed by removeDuplicateEdges or removeEdge.",
                 assumptions=["all copies of a pair carry the same label/weight/multiplicity (by construction)", "multigraph: weaker reading (deduplicated graph holds each pair once with the multiplicity its copies carried)"]),
